@@ -344,4 +344,145 @@ theorem findLoop_bst {P : Bt4Params} {c : Cfg} {data : Array UInt8} (hok : P.ok)
     obtain ⟨a, b⟩ := ih hinv ht1 (ht1 _) hlb1.1 hlb1.2 hlennl hl1 hms1
     exact ⟨hpost _ a, b⟩
 
+/-! ### the private `skip` -/
+
+theorem skipInner_spec (data : Array UInt8) (p delta niceLimit : Nat) (fuel len : Nat) (lg : Log) :
+    len < niceLimit → niceLimit ≤ fuel + len →
+    (∀ i, i ≤ len → byteAt data (p + i - delta) = byteAt data (p + i)) →
+    (∀ i, i < (skipInner data p delta niceLimit fuel len lg).1 → byteAt data (p + i - delta) = byteAt data (p + i)) ∧
+    ((skipInner data p delta niceLimit fuel len lg).2.1 = true →
+      (skipInner data p delta niceLimit fuel len lg).1 = niceLimit) ∧
+    ((skipInner data p delta niceLimit fuel len lg).2.1 = false →
+      (skipInner data p delta niceLimit fuel len lg).1 < niceLimit ∧
+      byteAt data (p + (skipInner data p delta niceLimit fuel len lg).1 - delta) ≠
+        byteAt data (p + (skipInner data p delta niceLimit fuel len lg).1)) := by
+  fun_induction skipInner data p delta niceLimit fuel len lg with
+  | case1 len lg => intro h1 h2 _; omega
+  | case2 fuel len lg len1 heq =>
+    intro _ _ he
+    exact ⟨fun i hi => he i (by omega), fun _ => heq, fun h => by simp at h⟩
+  | case3 fuel len lg len1 hne lg1 hby =>
+    intro h1 _ he
+    exact ⟨fun i hi => he i (by omega), fun h => by simp at h, fun _ => ⟨by omega, hby⟩⟩
+  | case4 fuel len lg len1 hne lg1 hby ih =>
+    intro h1 h2 he
+    refine ih (by omega) (by omega) ?_
+    intro i hi
+    by_cases h : i ≤ len
+    · exact he i h
+    · have : i = len1 := by omega
+      subst this
+      exact Decidable.not_not.1 hby
+
+theorem skipStep_spec (data : Array UInt8) (p delta niceLimit m : Nat) (lg : Log) {len : Nat} {nice : Bool}
+    {lg2 : Log} (hm : m < niceLimit) (hpre : ∀ i, i < m → byteAt data (p + i - delta) = byteAt data (p + i))
+    (hx : (if byteAt data (p + m - delta) = byteAt data (p + m) then
+        skipInner data p delta niceLimit niceLimit m lg else (m, false, lg)) = (len, nice, lg2)) :
+    (∀ i, i < len → byteAt data (p + i - delta) = byteAt data (p + i)) ∧
+    (nice = true → len = niceLimit) ∧
+    (nice = false → len < niceLimit ∧ byteAt data (p + len - delta) ≠ byteAt data (p + len)) := by
+  split at hx
+  · rename_i hb
+    have := skipInner_spec data p delta niceLimit niceLimit m lg hm (by omega) (by
+      intro i hi
+      by_cases h : i < m
+      · exact hpre i h
+      · have : i = m := by omega
+        subst this; exact hb)
+    rw [hx] at this
+    exact this
+  · rename_i hb
+    simp only [Prod.mk.injEq] at hx
+    obtain ⟨rfl, rfl, rfl⟩ := hx
+    exact ⟨hpre, fun h => by simp at h, fun _ => ⟨hm, hb⟩⟩
+
+theorem skipLoop_bst {P : Bt4Params} {c : Cfg} {data : Array UInt8} (hok : P.ok) (k : Ctx) {hi : Nat}
+    (hk : KCore P c data k hi) (hcp : k.cyclicPos = (k.lzPos - 1) % k.cs)
+    (hNn : k.niceLimit = nw data k.cs c.niceLen (hi + 1))
+    (depth : Nat) (tree : Array Nat) (ptr0 ptr1 len0 len1 cur : Nat) (lg : Log) :
+    LoopInv data k.cs c.niceLen (k.p + 1) hi k.p tree ptr0 ptr1 len0 len1 cur → TblOk k.cs hi tree →
+    EntryOk k.cs hi cur → len0 < k.niceLimit → len1 < k.niceLimit →
+    Post data k.cs (k.p + 1) hi k.niceLimit k.p tree
+      (skipLoop P data k depth tree ptr0 ptr1 len0 len1 cur lg).1 ptr0 ptr1 cur := by
+  have hlo1 : 1 ≤ k.p + 1 := by omega
+  have hgeo : hi < k.p + 1 + k.cs := by have := hk.hi; omega
+  fun_induction skipLoop P data k depth tree ptr0 ptr1 len0 len1 cur lg with
+  | case1 tree ptr0 ptr1 len0 len1 cur lg =>
+    intro h _ _ _ _
+    exact post_terminate h
+  | case2 depth tree ptr0 ptr1 len0 len1 cur lg delta hstop =>
+    intro h _ _ _ _
+    exact post_terminate h
+  | case3 depth tree ptr0 ptr1 len0 len1 cur lg delta hstop pair len0' lg1 len lg2 hx =>
+    intro h ht hc hl0 hl1
+    rw [ok_stop hok, geOrGt_true, decide_eq_true_eq] at hstop
+    have hf := candFacts hok hk hcp hc hstop
+    have hpre := cand_prefix_eq h hf
+    have hs := skipStep_spec data k.p delta k.niceLimit len0' lg1 (by omega) (by
+      intro i hi'
+      rw [pos_shift hk hf.csLt hf.hiLe]
+      exact hpre i hi') hx
+    have hlen : len = k.niceLimit := hs.2.1 rfl
+    have heq : EqN data k.niceLimit (posOf k.cs cur) k.p := by
+      intro i hi'
+      have := hs.1 i (by omega)
+      rw [pos_shift hk hf.csLt hf.hiLe] at this
+      exact this
+    have hpair : pair = sl k.cs cur := hf.pair
+    show Post _ _ _ _ _ _ _ (relink tree ptr0 ptr1 pair lg2).1 _ _ _
+    simp only [relink]
+    rw [hpair]
+    exact post_relink h hf.lo (by rw [hNn]; exact nw_mono hk hf.hiLe) heq
+  | case4 depth tree ptr0 ptr1 len0 len1 cur lg delta hstop pair len0' lg1 len nice lg2 hx hnice lg3 hlt tree1 lg4 ih =>
+    intro h ht hc hl0 hl1
+    rw [ok_stop hok, geOrGt_true, decide_eq_true_eq] at hstop
+    have hf := candFacts hok hk hcp hc hstop
+    have hpre := cand_prefix_eq h hf
+    have hs := skipStep_spec data k.p delta k.niceLimit len0' lg1 (by omega) (by
+      intro i hi'
+      rw [pos_shift hk hf.csLt hf.hiLe]
+      exact hpre i hi') hx
+    have hn : nice = false := by simpa using hnice
+    have hlen : len < k.niceLimit := (hs.2.2 hn).1
+    have heq : EqN data len (posOf k.cs cur) k.p := by
+      intro i hi'
+      have := hs.1 i hi'
+      rw [pos_shift hk hf.csLt hf.hiLe] at this
+      exact this
+    have hN := nw_mono (c := c) (data := data) hk hf.hiLe
+    have hpair : pair = sl k.cs cur := hf.pair
+    have hlt' : byteAt data (posOf k.cs cur + len) < byteAt data (k.p + len) := by
+      have := hlt; rw [pos_shift hk hf.csLt hf.hiLe] at this; exact this
+    obtain ⟨hinv, hpost⟩ := step_small hlo1 hgeo (Nn := k.niceLimit) h hf.lo (by omega) (by omega) heq hlt'
+    rw [← hpair] at hinv hpost
+    have ht1 : TblOk k.cs hi tree1 := ht.set ptr1 cur hc
+    exact hpost _ (ih hinv ht1 (ht1 _) hl0 hlen)
+  | case5 depth tree ptr0 ptr1 len0 len1 cur lg delta hstop pair len0' lg1 len nice lg2 hx hnice lg3 hlt tree1 lg4 ih =>
+    intro h ht hc hl0 hl1
+    rw [ok_stop hok, geOrGt_true, decide_eq_true_eq] at hstop
+    have hf := candFacts hok hk hcp hc hstop
+    have hpre := cand_prefix_eq h hf
+    have hs := skipStep_spec data k.p delta k.niceLimit len0' lg1 (by omega) (by
+      intro i hi'
+      rw [pos_shift hk hf.csLt hf.hiLe]
+      exact hpre i hi') hx
+    have hn : nice = false := by simpa using hnice
+    have hlen : len < k.niceLimit := (hs.2.2 hn).1
+    have heq : EqN data len (posOf k.cs cur) k.p := by
+      intro i hi'
+      have := hs.1 i hi'
+      rw [pos_shift hk hf.csLt hf.hiLe] at this
+      exact this
+    have hN := nw_mono (c := c) (data := data) hk hf.hiLe
+    have hpair : pair = sl k.cs cur := hf.pair
+    have hlt' : byteAt data (k.p + len) < byteAt data (posOf k.cs cur + len) := by
+      have h1 := hlt
+      have h3 := (hs.2.2 hn).2
+      rw [pos_shift hk hf.csLt hf.hiLe] at h1 h3
+      omega
+    obtain ⟨hinv, hpost⟩ := step_large hlo1 hgeo (Nn := k.niceLimit) h hf.lo (by omega) (by omega) heq hlt'
+    rw [← hpair] at hinv hpost
+    have ht1 : TblOk k.cs hi tree1 := ht.set ptr0 cur hc
+    exact hpost _ (ih hinv ht1 (ht1 _) hlen hl1)
+
 end LzmaVerif.Mf.Bt4
